@@ -109,10 +109,12 @@ theorem compileStmtH_hyb (env : CEnv) : (s : CStmt) → {st st' : HSt} → {eff 
   | .assign lhs op e, st, st', eff, b, h => by
       obtain ⟨c1, s1, eff0, src, h1, _, _, _, rfl⟩ := invS_assign h
       have := compileExprH_hyb env e h1
+      simp only [regLhsH_hyb] at this
       simp only [chk_hyb, hybCountS]; omega
   | .chain l1 l2 op2 e, st, st', eff, b, h => by
       obtain ⟨c1, s1, effI, srcI, effO, srcO, h1, _, _, _, _, rfl⟩ := invS_chain h
       have := compileExprH_hyb env e h1
+      simp only [regLhsH_hyb] at this
       simp only [chk_hyb, hybCountS]; omega
   | .store w e, st, st', eff, b, h => by
       obtain ⟨c1, s1, data, h1, _, _, rfl⟩ := invS_store h
